@@ -269,6 +269,10 @@ func (ws *WatchingSource) Watch(
 // content-changes with an HMAC-SHA256 before reporting anything upstream.
 const k8sIntermediateSymlinkDir = "..dir"
 
+// k8sDataSymlink is the name the Kubernetes AtomicWriter actually gives the
+// intermediate symlink (see the description above).
+const k8sDataSymlink = "..data"
+
 func (ws *WatchingSource) watchLoop(
 	ctx context.Context,
 	t *dials.Type,
@@ -290,6 +294,7 @@ func (ws *WatchingSource) watchLoop(
 	eventNumber := 0
 	cleanedPathDir := filepath.Dir(cleanedPath)
 	cleanedPathDirPlusDir := filepath.Join(cleanedPathDir, k8sIntermediateSymlinkDir)
+	cleanedPathDirPlusData := filepath.Join(cleanedPathDir, k8sDataSymlink)
 MAINLOOP:
 	for {
 		select {
@@ -305,7 +310,7 @@ MAINLOOP:
 			// resolved.
 			switch ev.Name {
 			case resolvedCfgPath, cleanedPath, cleanedPathDir,
-				cleanedPathDirPlusDir, filepath.Dir(resolvedCfgPath):
+				cleanedPathDirPlusDir, cleanedPathDirPlusData, filepath.Dir(resolvedCfgPath):
 			default:
 				continue MAINLOOP
 			}
